@@ -650,3 +650,98 @@ Proof.
     assert (X : existsb (fun c => in_ranges c newline_class) s = true)
       by (apply existsb_exists; eexists; split; [exact Hc|vm_compute; reflexivity]); congruence.
 Qed.
+
+(* ================================================================== the close trace, exactly, per configuration *)
+(* what runs when the server closes the returned iterable, in every configuration: this is the tightest true form
+   of the close clause.  In direct passthrough with a body (the known finding) exactly the wrapped iterable's own
+   close runs and NO entry of _on_close; in every other configuration exactly Response.close runs (after the close
+   of the encoding generator when there is one) *)
+Theorem close_trace_exact r is_head :
+  s_trace (serve r is_head) =
+    if bodyless is_head (r_code r) then response_close r
+    else if r_passthrough r then (if r_closable r then [EWrapped] else [])
+    else EIterClose :: response_close r.
+Proof.
+  unfold serve, app_iter_kind, bodyless, zmem. cbn [existsb].
+  destruct is_head; cbn [orb]; [cbn; apply app_nil_r|].
+  destruct ((100 <=? r_code r)%Z && (r_code r <? 200)%Z); cbn [orb]; [cbn; apply app_nil_r|].
+  destruct (r_code r =? 204)%Z; cbn [orb]; [cbn; apply app_nil_r|].
+  destruct (r_code r =? 304)%Z; cbn [orb]; [cbn; apply app_nil_r|].
+  destruct (r_passthrough r); [reflexivity|]. cbn. rewrite app_nil_r. reflexivity.
+Qed.
+
+(* ================================================================== body accessors and Content-Length *)
+Lemma body_bytes_encoded l : flat_map encode_item (map (fun i => IBytes (encode_item i)) l) = flat_map encode_item l.
+Proof. apply flat_map_encode_map. Qed.
+
+Theorem make_sequence_body r : body_bytes (make_sequence r) = body_bytes r /\ r_headers (make_sequence r) = r_headers r.
+Proof.
+  unfold make_sequence, body_bytes. destruct (r_is_seq r); [split; reflexivity|]. cbn [r_body r_headers].
+  split; [apply body_bytes_encoded|reflexivity].
+Qed.
+
+Theorem set_data_agrees r v :
+  body_bytes (set_data r v) = encode_item v /\
+  (r_auto_cl r = true ->
+   hd_getlist (r_headers (set_data r v)) CONTENT_LENGTH = [dec_of_Z (Z.of_nat (length (body_bytes (set_data r v))))]).
+Proof.
+  unfold set_data, body_bytes, with_body. cbn [r_body r_headers flat_map encode_item]. rewrite app_nil_r.
+  split; [reflexivity|]. intro A. rewrite A. destruct (hd_set_law (r_headers r) CONTENT_LENGTH (dec_of_Z (Z.of_nat (length (encode_item v))))) as (G & _).
+  exact G.
+Qed.
+
+Theorem freeze_agrees etag r :
+  let r' := fst (freeze etag r) in
+  body_bytes r' = body_bytes r /\ r_is_seq r' = true /\ r_callbacks r' = r_callbacks r /\
+  hd_getlist (r_headers r') CONTENT_LENGTH = [dec_of_Z (Z.of_nat (length (body_bytes r')))] /\
+  snd (freeze etag r) = r_closable r.
+Proof.
+  cbv zeta. unfold freeze, with_body. cbn [fst snd r_body r_is_seq r_callbacks r_headers].
+  assert (B : body_bytes {| r_headers := []; r_code := 0; r_line := []; r_body := map (fun i => IBytes (encode_item i)) (r_body r);
+                           r_is_seq := true; r_closable := false; r_passthrough := false; r_auto_cl := false; r_autocorrect := false;
+                           r_callbacks := [] |} = body_bytes r) by (unfold body_bytes; cbn [r_body]; apply body_bytes_encoded).
+  unfold body_bytes in *. cbn [r_body] in *. split; [exact B|]. split; [reflexivity|]. split; [reflexivity|]. split; [|reflexivity].
+  rewrite B. set (cl := dec_of_Z (Z.of_nat (length (flat_map encode_item (r_body r))))).
+  destruct (hd_set_law (r_headers r) CONTENT_LENGTH cl) as (G & _).
+  destruct (hd_contains (hd_set_str (r_headers r) CONTENT_LENGTH cl) ETAG); [exact G|].
+  destruct (hd_set_law (hd_set_str (r_headers r) CONTENT_LENGTH cl) ETAG etag) as (_ & O & _).
+  rewrite O by (vm_compute; reflexivity). exact G.
+Qed.
+
+Theorem accessors_agree r :
+  match ensure_sequence r with
+  | Some r' =>
+      body_bytes r' = body_bytes r /\ r_headers r' = r_headers r /\
+      snd (calculate_content_length r) = Some (length (body_bytes r)) /\ snd (get_data r) = Some (body_bytes r)
+  | None =>
+      r_passthrough r = true /\ r_is_seq r = false /\ snd (calculate_content_length r) = None /\ snd (get_data r) = None
+  end.
+Proof.
+  unfold calculate_content_length, get_data, ensure_sequence. destruct (r_is_seq r) eqn:S.
+  - repeat split.
+  - destruct (r_passthrough r) eqn:P; [repeat split|]. destruct (make_sequence_body r) as [B H]. rewrite B. repeat split; assumption.
+Qed.
+
+(* a Content-Length that werkzeug stored itself (set_data, freeze) reaches the server unchanged for every status
+   that may carry one *)
+Theorem stored_content_length_kept iri join cur r h x :
+  clean (r_headers r) -> get_wsgi_headers iri join cur r = (h, None) ->
+  hd_getlist (r_headers r) CONTENT_LENGTH = [x] -> bodyless false (r_code r) = false ->
+  hd_getlist h CONTENT_LENGTH = [x].
+Proof.
+  intros C H Hx Hb. unfold get_wsgi_headers, hd_init, hd_extend, harg_items in H. rewrite (copy_clean _ C) in H. cbn [hseq] in H.
+  apply hseq_none in H. destruct H as (h1 & H1 & H). apply hseq_none in H. destruct H as (h2 & H2 & H).
+  apply hseq_none in H. destruct H as (h3 & H3 & H4).
+  assert (L1 : ci_eqb LOCATION CONTENT_LENGTH = false) by (vm_compute; reflexivity).
+  assert (L2 : ci_eqb CONTENT_LOCATION CONTENT_LENGTH = false) by (vm_compute; reflexivity).
+  assert (G2 : hd_getlist h2 CONTENT_LENGTH = [x]).
+  { rewrite (opt_set_other _ _ _ _ _ _ H2 L2), (opt_set_other _ _ _ _ _ _ H1 L1). exact Hx. }
+  unfold bodyless in Hb. cbn [orb] in Hb.
+  assert (Hs1 : wsgi_strip_cl (r_code r) = false) by (unfold wsgi_strip_cl; lia).
+  assert (Hs2 : wsgi_strip_entity (r_code r) = false) by (unfold wsgi_strip_entity; lia).
+  rewrite Hs1, Hs2 in H3. inversion H3; subst h3.
+  unfold last_value in H4. rewrite Hx in H4. cbn [rev app hd_error] in H4.
+  unfold wsgi_auto_cl in H4. rewrite !andb_false_r in H4. cbn [andb] in H4.
+  replace (r_auto_cl r && r_is_seq r && false) with false in H4 by (destruct (r_auto_cl r), (r_is_seq r); reflexivity).
+  cbn [andb] in H4. inversion H4; subst h. exact G2.
+Qed.
